@@ -478,6 +478,14 @@ func (e *env) cmpConfig(id party.ID, p params) *cmp.Config {
 				c.Public[k] = v
 			}
 		}
+	case "nilentry":
+		c.Public = map[party.ID]*cmpconfig.Public{}
+		for k, v := range base.Public {
+			c.Public[k] = v
+			if k != id {
+				c.Public[k] = nil
+			}
+		}
 	default:
 		fatal("unknown cmp key class %q", p.key)
 	}
@@ -510,6 +518,12 @@ func (e *env) frostConfig(id party.ID, p params) *frost.Config {
 		c.VerificationShares = party.NewPointMap(map[party.ID]curve.Point{})
 	case "noown":
 		delete(vs, id)
+	case "nilentry":
+		for k := range c.VerificationShares.Points {
+			if k != id {
+				c.VerificationShares.Points[k] = nil
+			}
+		}
 	default:
 		fatal("unknown frost key class %q", p.key)
 	}
@@ -541,6 +555,12 @@ func (e *env) taprootConfig(id party.ID, p params) *frost.TaprootConfig {
 		c.VerificationShares = map[party.ID]*curve.Secp256k1Point{}
 	case "noown":
 		delete(c.VerificationShares, id)
+	case "nilentry":
+		for k := range c.VerificationShares {
+			if k != id {
+				c.VerificationShares[k] = nil
+			}
+		}
 	default:
 		fatal("unknown taproot key class %q", p.key)
 	}
